@@ -96,6 +96,21 @@ pub fn generate_bigram_info(
             ));
         }
     }
+    // The ids are emitted densely as 1..len, which is only right if id 0 (BOS/EOS) is defined too;
+    // without it the largest id would be dropped silently and gaps would go unnoticed.
+    if !left_features.contains_key(&0) {
+        return Err(VibratoError::invalid_format(
+            "right_id_def_rdr",
+            "ID 0 (BOS/EOS) must be defined",
+        ));
+    }
+    if !right_features.contains_key(&0) {
+        return Err(VibratoError::invalid_format(
+            "left_id_def_rdr",
+            "ID 0 (BOS/EOS) must be defined",
+        ));
+    }
+
     // weights
     let model_def_rdr = BufReader::new(model_def_rdr);
     let mut bigram_cost_wtr = BufWriter::new(bigram_cost_wtr);
